@@ -825,7 +825,11 @@ class Binary:
         self.mock.stdin.write((json.dumps({"backends": [{"name": "b0"}]}) + "\n").encode()); self.mock.stdin.flush()
         self.bport = json.loads(self.mock.stdout.readline())["ports"]["b0"]
         self.proc, self.port, self.err = None, None, None
-        for attempt in range(4):
+        for attempt in range(8):
+            if attempt:
+                # the listener could not bind (port taken between free_port() and bind, or the machine is out of ephemeral
+                # ports while other checks run): a resource problem of the harness, back off and try another port
+                time.sleep(1.5 * attempt)
             self.port = free_port()
             cfg = make_toml(timeout_ms, self.port).replace("@PORT:b0@", str(self.bport))
             path = os.path.join(self.dir, "pgcat.toml")
